@@ -25,8 +25,11 @@ for c in commits:
             results[c] = (prop, "revert conflicts (later fixes build on it)")
             print(c, prop, "CONFLICT", flush=True)
             continue
-        env = dict(os.environ, VERIF_REPO=d + "/r", VERIF_EVIDENCE_DIR=d + "/ev", VERIF_REPLAY_DIR=d + "/replay")
-        p = subprocess.run([os.path.join(VERIF, "check"), prop, "--tier", "quick"], env=env, capture_output=True, text=True, timeout=3000, cwd=VERIF)
+        for seed in os.environ.get("SWEEP_SEEDS", "1").split():  # stop at the first seed that sees it
+            env = dict(os.environ, VERIF_REPO=d + "/r", VERIF_EVIDENCE_DIR=d + "/ev", VERIF_REPLAY_DIR=d + "/replay", VERIF_SEED=seed)
+            p = subprocess.run([os.path.join(VERIF, "check"), prop, "--tier", os.environ.get("SWEEP_TIER", "quick")], env=env, capture_output=True, text=True, timeout=6000, cwd=VERIF)
+            if p.returncode == 1:
+                break
         reps = sorted(glob.glob(d + f"/replay/{prop}/*.json"), key=os.path.getsize)
         line = next((l for l in p.stdout.split("\n") if l.startswith("  ")), "")[:200]
         if p.returncode == 1 and reps:
@@ -35,11 +38,14 @@ for c in commits:
             v = json.load(open(reps[0]))
             v["regression_of"] = c
             json.dump(v, open(dst, "w"), indent=1)
-            results[c] = (prop, "caught: " + line.strip())
-            print(c, prop, "CAUGHT", line.strip(), flush=True)
+            results[c] = (prop, f"caught (seed {seed}): " + line.strip())
+            print(c, prop, "CAUGHT seed", seed, line.strip(), flush=True)
         else:
             results[c] = (prop, f"not caught by the quick tier (rc={p.returncode})")
             print(c, prop, "MISSED rc=%d" % p.returncode, p.stdout[-300:].replace("\n", " | "), flush=True)
     finally:
         shutil.rmtree(d, ignore_errors=True)
-json.dump(results, open(os.path.join(VERIF, "corpus", "revert_sweep.json"), "w"), indent=1)
+outp = os.path.join(VERIF, "corpus", "revert_sweep.json")
+allres = json.load(open(outp)) if os.path.exists(outp) and sys.argv[1:] else {}
+allres.update(results)
+json.dump(allres, open(outp, "w"), indent=1)
